@@ -5,12 +5,13 @@ ENTRY = dict(
         title="A reported minimum really is the minimum sampling overhead",
         prop_file="Properties/C08.v",
         corr_files=["Corr/C08Corr.v"],
-        theorems=["c08_action_factor", "c08_factor_ge_1", "c08_cost_monotone", "c08_dijkstra", "c08_frontier_invariant", "c08_driver_invariant",
-                  "c08_flag_sound_guarded", "c08_pruning_sound", "c08_pruning_sound_request", "c08_result_two_qubit",
-                  "c08_wide_gate_no_result", "c08_gammas_from_table", "c08_flag_sound_unbounded",
-                  "c08_flag_sound", "c08_pruning_sound_bounded", "c08_flag_sound_bounded",
-                  "c08_unrestricted", "c08_seed_independent", "c08_result_attained", "c08_unrestricted_spec",
-                  "c08_seed_independent_spec", "c08_unrestricted_unbounded", "c08_seed_independent_unbounded",
+        theorems=["c08_action_factor", "c08_factor_ge_1", "c08_cost_monotone", "c08_dijkstra_generic", "c08_frontier_invariant",
+                  "c08_driver_invariant", "c08_flag_sound_guarded", "c08_pruning_sound", "c08_pruning_sound_request",
+                  "c08_result_two_qubit", "c08_wide_gate_no_result", "c08_gammas_from_table", "c08_flag_sound",
+                  "c08_result_is_assignment", "c08_reported_minimum_is_minimum",
+                  "c08_flag_sound_modulo_pruning", "c08_pruning_sound_bounded", "c08_flag_sound_bounded",
+                  "c08_unrestricted_guarded", "c08_seed_independent_guarded", "c08_result_attained", "c08_unrestricted_modulo_pruning",
+                  "c08_seed_independent_modulo_pruning", "c08_unrestricted", "c08_seed_independent", "c08_unrestricted_total",
                   "c08_unrestricted_bounded", "c08_seed_independent_bounded", "c08_enough_fuel",
                   "c08_facts", "c08_fact_requeue"],
         allowed_axioms=[],
@@ -19,32 +20,37 @@ ENTRY = dict(
                "bf_bound_branch_requeues", "bf_put_prunes_above_upperbound", "bf_flag_rule"],
         harness="c08",
         level_text="Unbounded theorems (any number of gates/qubits, any tape, any fuel) about the executable model of the cut search "
-                   "(best-first engine with the REPAIRED bound branch, greedy incumbent, wire-cut budget, driver loop, find_cuts metadata): every "
-                   "action multiplies the cost by a factor >= 1; generic Dijkstra/pruning lemmas; the frontier invariant is preserved by a pass; "
-                   "minimum_reached = true implies that the returned overhead is <= that of every goal of the guarded search space; an "
-                   "unrestricted search (no backjump limit, some goal within max_gamma) always sets the flag and its overhead does not depend on "
-                   "the random tape; enough fuel excludes NoFuel. The step from the guarded search space to the declarative specification "
-                   "(all 5^g assignments on the wire-segment graph) is now PROVED UNBOUNDED (c08_pruning_sound: any number of qubits and "
-                   "two-qubit gates, any width limit, any cut-kind combination, any max_gamma, gammas >= 1): every assignment of permitted "
-                   "kinds that meets the width limit is matched in cost by a goal that the guarded actions (width checks, r1 == r2 guards, "
-                   "can_expand_subcircuit, the W < 2 guard, the no-merge clauses, can_add_wires under the budget min(#gate inputs, "
-                   "max_wire_cuts_gamma(greedy gamma | max_gamma))) reach from the start state of the search. Exchange argument: the "
-                   "assignment is normalised against the final components of its own wire segments (useless cuts become leave, a "
-                   "both-wires cut with one useless side becomes a single wire cut), the search follows the normalised assignment "
-                   "under a simulation invariant, 4^(wire cuts) <= cost bounds the wire cuts by max_wire_cuts_gamma, and when the "
-                   "assignment costs more than the greedy incumbent the greedy path itself is shown to exist under the smaller budget. "
-                   "Consequently c08_flag_sound_unbounded / c08_unrestricted_unbounded / c08_seed_independent_unbounded hold for every "
-                   "request without any hypothesis on the search space; their only hypotheses are the two checkable facts gtab_ge1 (every kappa in "
-                   "the gate table handed to the model is >= 1; evaluated by the Coq case checker on every generated case) and circ_nodup (no "
-                   "instruction uses a qubit twice). That every multi-qubit gate acts on exactly two qubits is DERIVED from the existence of a "
-                   "result (c08_result_two_qubit: a returned state is a goal reached from level 0, a path visits every level, and the "
-                   "successor function raises ValueError at the level of a wider gate); conversely a circuit with a wider gate never yields a "
-                   "result (c08_wide_gate_no_result; the model returns the ValueError, compared with find_cuts in the malformed stream). "
-                   "The finite-domain enumeration (c08_pruning_sound_bounded: <=3 gates, <=4 qubits, gammas 3/7; <=4 gates in "
-                   "Proofs/BestFirstSpec4.v outside this property's cone) is kept as an independent check of the same statement. "
-                   "Closed under the global context. The model's (overhead, minimum_reached) are compared exactly with find_cuts on >1300 requests "
-                   "x 2-3 seeds per quick run (bounded-exhaustive small circuits + random circuits + the F3 witness class; thorough: all 162 300 "
-                   "requests of the <=4-gate space + 5000 random ones), and the independent brute-force oracle runs on every generated case.",
+                   "(best-first engine with the REPAIRED bound branch, greedy incumbent, wire-cut budget, driver loop, find_cuts metadata). "
+                   "HEADLINE (canonical names, no hypothesis about the search space; hypotheses: gtab_ge1 = every kappa in the gate table handed "
+                   "to the model is >= 1, evaluated by the Coq case checker on every case [oracle fact about QPDBasis.kappa]; circ_nodup = no "
+                   "instruction uses a qubit twice [input precondition]; and, where stated, find_cuts_full = Val r [success case]): "
+                   "c08_flag_sound: flag true => returned overhead <= cost^2 of EVERY assignment of permitted kinds that meets the width limit in the "
+                   "wire-segment specification assignment_cost; c08_result_is_assignment: the returned overhead IS cost^2 of such an assignment "
+                   "(attainment, so an under-reporting model would fail); c08_reported_minimum_is_minimum: both together; "
+                   "c08_unrestricted / c08_seed_independent: with max_backjumps = None and some assignment within max_gamma a returned result "
+                   "has the flag set and two tapes give equal overhead; c08_unrestricted_total: the TOTAL form - inside the domain (circ_wf: "
+                   "multi-qubit gates are two-qubit gates on distinct qubits; all of them known to the gate table; no classical bits; valid "
+                   "settings; W >= 1; some cut kind; enough fuel) such a request DOES return a value with the flag set (not Crash: C07 "
+                   "never-crashes; not ValueError: a dead-ended greedy pass with known gammas means no gate cuts and W = 1, where the "
+                   "specification has no assignment). "
+                   "c08_pruning_sound (exchange argument, all sizes) and its converse (Proofs/BestFirstAttain.v) connect the guarded search space "
+                   "with the specification: every assignment that meets the width limit is matched in cost by a goal the guarded actions (width "
+                   "checks, r1 == r2 guards, can_expand_subcircuit, W < 2 guard, no-merge clauses, can_add_wires under the budget min(#gate inputs, "
+                   "max_wire_cuts_gamma(greedy gamma | max_gamma))) reach from the start state, and every goal is an assignment of the same cost. "
+                   "STEPPING STONES kept under explicit names: ..._guarded (relative to the guarded search space only), ..._modulo_pruning "
+                   "(pruning soundness as a premise), ..._bounded (finite-domain enumeration <=3 gates, <=4 qubits, gammas 3/7, an independent "
+                   "check; the 4-gate enumeration is outside the cone and not registered), c08_result_attained (best = greedy incumbent or "
+                   "guarded goal), c08_frontier_invariant / c08_driver_invariant (engine pass and repeat-until-None driver loop, backjump and "
+                   "bound accounting across passes), c08_action_factor / c08_factor_ge_1 / c08_cost_monotone, c08_enough_fuel, "
+                   "c08_dijkstra_generic (a standalone generic lemma, NOT used by the proof chain and saying nothing about the code by itself). "
+                   "c08_result_two_qubit: a returned value proves every multi-qubit gate has two qubits; c08_wide_gate_no_result: a circuit with a "
+                   "wider gate never yields a value (conclusion is '<> Val r', not '= Ref': that the model returns the ValueError is shown only for "
+                   "the instance c08_ex_wide and compared with find_cuts on the malformed stream; excluding Crash would need C07's invariants "
+                   "for gate lists with a wide gate). Non-vacuity: c08_ex_five_* = 5 qubits, 5 gates, gate and wire cuts, max_backjumps = None, two "
+                   "tapes, through find_cuts_full (optimum 12 found and flagged under both tapes; flag false for max_gamma below the optimum and "
+                   "for a backjump limit). Closed under the global context. The model's (overhead, minimum_reached) are compared exactly with "
+                   "find_cuts on ~3000 requests x 1-3 seeds per quick run (bounded-exhaustive small circuits, random circuits, the F3 witness "
+                   "class, limits far above 1024, malformed incl. a three-qubit gate), and the independent brute-force oracle runs on every case.",
         level_note=STD_NOTE + "No axioms. heapq is modelled as extract-min over a list (oracle contract O-heap); the numpy Generator as a recorded tape.",
         assumptions=[
             "Model/CutFinder*.v (written for C07) is a hand-written model of find_cuts and the cut_finding package; tied to the source by the C07 "
@@ -52,14 +58,18 @@ ENTRY = dict(
             "the model implements the REPAIRED behaviour of BestFirstSearch.optimization_pass (a popped state over a bound is re-queued unless "
             "the flag is set; candidate fix F3); fact bf_bound_branch_requeues ties this to the source and is false on the unrepaired tree",
             "gate gammas >= 1: reduced to the executable check gtab_ge1 of the gate table (c08_gammas_from_table), evaluated inside Coq on every "
-            "generated case (Corr/C08Corr.v: chk_c08); that the table holds kappa of QPD bases, which are >= 1, is C15 (c15_ge_1, over the reals; "
-            "not connected by proof)",
+            "generated case (Corr/C08Corr.v: chk_c08); that the table holds kappa of QPD bases, which are >= 1, is C15 (c15_ge_1 over the reals, and the axiom-free "
+            "Q-level c15_gamma_table_ge1 / c15_gamma_table_consts of Proofs/KappaQ.v); not connected by proof: C15's table is keyed by gate NAME "
+            "and angle, the model's gate table by interned gate id with kappa as observed by the harness, and the model's circuit does not carry names",
             "c08_pruning_sound is proved for gate lists of well-formed two-qubit gates (two distinct qubits below the number of qubits). For a "
             "request of find_cuts that returns a value, 'two qubits' is derived (c08_result_two_qubit) and 'below the number of qubits' is "
             "proved from the renumbering; 'distinct' remains the hypothesis circ_nodup of the request-level theorems (Qiskit rejects duplicate "
             "qubit arguments when an instruction is appended). The specification is the wire-segment semantics of Proofs/BestFirstSpec.v "
             "(assignment_cost), a hand-written declarative definition; the brute-force oracle of harness/c08.py still probes the same "
             "statement on every generated case (a rejected case is marked k_oracle=false and reported)",
+            "c08_unrestricted_total additionally assumes circ_wf (two DISTINCT qubits per multi-qubit gate), every multi-qubit gate known to the "
+            "gate table, no classical bits, settings_ok, W >= 1, a permitted cut kind and fuel >= 5-ary tree size + 3 (input preconditions); "
+            "seed -> tape (one draw per heap push) is an oracle contract, tested",
             "binary64: gamma_UB ** 2 is exact below 2^26 (cases with a larger greedy gamma are skipped by the generator)",
             "max_wire_cuts_gamma is modelled exactly over Q (np.log2/np.ceil corner cases at powers of two are not modelled)",
             "harness/c08.py: `judge` (own 5^g brute force on wire segments) runs on EVERY generated case (contract judge_accepts_clean_case) with "
